@@ -62,6 +62,18 @@ func TestC10Schema(t *testing.T) {
 				c := rapid.SampledFrom(tb.Cols).Draw(t, "dcol")
 				s.History = append(s.History, fmt.Sprintf("ALTER TABLE %s DROP COLUMN %s", tb.Ident.SQL, c.Ident.SQL))
 			}
+			if rapid.IntRange(0, 3).Draw(t, "other") == 0 {
+				// objects that are no ordinary tables or indexes
+				tn := s.Tables[0].Def.Ident.SQL
+				s.History = append(s.History, rapid.SampledFrom([]string{
+					"CREATE VIEW v1 AS SELECT * FROM " + tn,
+					"CREATE TRIGGER tr1 AFTER INSERT ON " + tn + " BEGIN SELECT 1; END",
+					"ANALYZE",
+					"CREATE VIRTUAL TABLE ft USING fts5(x)",
+					"CREATE VIRTUAL TABLE rt USING rtree(id, a, b)",
+					"CREATE TEMP TABLE tmp1 (a)",
+				}).Draw(t, "otherobj"))
+			}
 			if rapid.IntRange(0, 5).Draw(t, "rename") == 0 {
 				s.History = append(s.History, fmt.Sprintf("ALTER TABLE %s RENAME TO %s", s.Tables[len(s.Tables)-1].Def.Ident.SQL, "renamed_table"))
 			}
